@@ -341,8 +341,15 @@ func (fr *frame) modifiesObls(ctr *FuncContract, envPre *Env, r retSite, site st
 				goal = fmt.Sprintf("(forall ((fr_r Int)) (=> (and (> fr_r 0) (< fr_r %s) %s) (= (select %s fr_r) (select %s fr_r))))", top0, strings.Join(ex, " "), fin, ini)
 			}
 		}
-		fc.obls = append(fc.obls, &Obl{Func: fc.key, Kind: "modifies", Label: mangle(k), Site: site, NFacts: len(fc.facts), Path: r.reach, Goal: goal, Text: "frame: " + k + " unchanged outside the modifies clause"})
+		fc.obls = append(fc.obls, &Obl{Func: fc.key, Kind: "modifies", Label: fc.labelOfComp(k), Site: site, NFacts: len(fc.facts), Path: r.reach, Goal: goal, Text: "frame: " + k + " unchanged outside the modifies clause"})
 	}
+}
+
+func (fc *FnCtx) labelOfComp(k string) string {
+	if l, ok := fc.compLabel[k]; ok {
+		return l
+	}
+	return mangle(k)
 }
 
 // VerifyLemma: a lemma is proved from the prelude, spec function definitions and axioms only.
